@@ -32,7 +32,8 @@ def apply_event(config, s, d, k, a, b, p):
         o = guarded(lambda: conn.send(D.request(conn, k)))
         return [D.outcome(o), D.state_of(conn)]
     if k == 1:
-        data = meter.aare(rejected=a, hls=b)
+        # both rejection results (permanent / transient) must reset the association: alternate between them
+        data = meter.aare(rejected=("transient" if (s + int(b)) % 2 else True) if a else False, hls=b)
     elif k == 3:
         data = meter.rlre()
     elif k == 15:
@@ -116,7 +117,7 @@ def run(ctx):
                 if d == 0:
                     o = guarded(lambda: conn.send(D.request(conn, k)))
                 else:
-                    data = meter.aare(rejected=a, hls=b) if k == 1 else meter.rlre() if k == 3 else D.plain_apdu(k, status=0 if a else 3) if k == 15 else D.plain_apdu(k)
+                    data = meter.aare(rejected=("transient" if len(hist) % 2 else True) if a else False, hls=b) if k == 1 else meter.rlre() if k == 3 else D.plain_apdu(k, status=0 if a else 3) if k == 15 else D.plain_apdu(k)
                     conn.buffer = bytearray()
                     conn.receive_data(data)
                     o = guarded(conn.next_event)
